@@ -249,6 +249,45 @@ class A(Adapter):
             return "board_topped_out_entry_rows_partly_filled"
         return None
 
+    # ---- reach probes -------------------------------------------------------------------------------
+    def events(self, ps, action, s, ts, env, cfg):
+        if ps is None:
+            occ = self._occ(s)
+            return ["reset"] + (["reset_nonsquare"] if occ.shape[0] != occ.shape[1] else [])
+        r, x = int(action[0]), int(action[1])
+        occ = self._occ(ps)
+        R, C = occ.shape
+        cells = _cells(ps.new_tetromino, r)
+        width = (max(j for _, j in cells) + 1) if cells else 0
+        verdict, _, _ = self._verdict(ps, action, env)
+        ev = []
+        if verdict is None:
+            ev.append("placement_between_bounds")  # partly filled entry rows: the rules are silent, the env's mask decides
+            verdict = bool(np.asarray(ps.action_mask)[r, x])
+        if not verdict or not cells:
+            return ev + ["ended_invalid_placement", "invalid_outside_columns" if x + width > C else "invalid_blocked_at_top"]
+        want, k, before = self._place(occ, cells, x)
+        ev.append(f"lines_cleared_{k}" if k else "no_line_cleared")
+        rows = np.flatnonzero(before.all(axis=1))
+        if k >= 2 and int(rows[-1] - rows[0]) + 1 > k:
+            ev.append("non_adjacent_multi_clear")
+        if k and not want.any():
+            ev.append("grid_emptied_by_clear")
+        if r != 0:
+            ev.append("rotated_placement")
+        if x + width == C:
+            ev.append("placed_at_right_edge")
+        top = int(np.flatnonzero((before & ~occ).any(axis=1))[0])  # highest row of the piece where it came to rest
+        if top < 4:
+            ev.append("piece_rests_in_entry_rows")
+        if top == 0:
+            ev.append("piece_rests_in_top_row")
+        if int(ts.step_type) == 2 and int(ps.step_count) + 1 < self.time_limit(env, cfg):
+            lo2, hi2 = self.legal_bounds(s, env)
+            if not lo2.any():
+                ev.append("ended_topped_out" if not hi2.any() else "ended_topped_out_entry_rows_partly_filled")
+        return ev
+
     # ---- C12 -----------------------------------------------------------------------------------------
     def observe(self, s, obs, env, cfg):
         occ = self._occ(s).astype(np.int64)
